@@ -263,7 +263,8 @@ theorem transform_of_history (arc : ArcFn α β) (posInf : α) (z0 : Renderer α
   have h1 := runOps_r arc posInf h z0
   have h2 := runOps_viewBox arc posInf h z0
   obtain ⟨t1, t2, t3, t4⟩ := transformOK_of_settled arc posInf h z0 hs
-  rw [h1, h2] at t1 t2 t3 t4
+  rw [h1, h2] at t1 t3
+  rw [h2] at t2 t4
   exact ⟨h1, h2, t1, t2, t3, t4⟩
 
 /-- **(a) `setRasterizer_transform`.**  After ANY history `h` (from any state), `SetRasterizer r`, and any
@@ -276,7 +277,7 @@ theorem setRasterizer_transform (arc : ArcFn α β) (posInf : α) (z0 : Renderer
     z.r = Rect.norm r ∧ z.viewBox = vb ∧
     z.scaleX = Arith.ofInt (Rect.norm r).dx / (vb.maxX - vb.minX) ∧ z.biasX = -vb.minX ∧
     z.scaleY = Arith.ofInt (Rect.norm r).dy / (vb.maxY - vb.minY) ∧ z.biasY = -vb.minY := by
-  have hs : (h ++ .rast r :: cs.map .call).any (settles (α := α)) = true := by
+  have hs : (h ++ RenOp.rast r :: cs.map RenOp.call).any settles = true := by
     simp [settles]
   have hR : rectAfter z0.r (h ++ .rast r :: cs.map .call) = Rect.norm r := by
     rw [rectAfter_append]; simp only [rectAfter]; exact rectAfter_calls _ cs
@@ -295,7 +296,7 @@ theorem reset_transform (arc : ArcFn α β) (posInf : α) (z0 : Renderer α β) 
     z.r = R ∧ z.viewBox = vb ∧
     z.scaleX = Arith.ofInt R.dx / (vb.maxX - vb.minX) ∧ z.biasX = -vb.minX ∧
     z.scaleY = Arith.ofInt R.dy / (vb.maxY - vb.minY) ∧ z.biasY = -vb.minY := by
-  have hs : (h ++ .call (.reset vb pal) :: cs.map .call).any (settles (α := α)) = true := by
+  have hs : (h ++ RenOp.call (.reset vb pal) :: cs.map RenOp.call).any settles = true := by
     simp [settles, isReset]
   have hR : rectAfter z0.r (h ++ .call (.reset vb pal) :: cs.map .call) = rectAfter z0.r h := by
     rw [rectAfter_append]; simp only [rectAfter]; exact rectAfter_calls _ cs
